@@ -58,7 +58,8 @@ type Scenario struct {
 type Planted struct {
 	File   string `json:"file"`
 	Line   int    `json:"line"`
-	Marker string `json:"marker,omitempty"` // the impossible token by which the error is recognised ("999.1.1.1" when empty)
+	PadCol int    `json:"pad_col,omitempty"` // blanks inserted in front of the bad token: the column reported must lie beyond them
+	Marker string `json:"marker,omitempty"`  // the impossible token by which the error is recognised ("999.1.1.1" when empty)
 }
 
 var records = []string{
@@ -277,8 +278,15 @@ func Gen(seed uint64, tier string) any {
 				at++
 			}
 			pl := plantedLines[r.IntN(len(plantedLines))]
+			pad := 0
+			if r.IntN(12) == 0 {
+				// the bad token sits far to the right (beyond what 16 bits can count)
+				pad = []int{300, 65530, 66000, 70000, 140000}[r.IntN(5)]
+				i := strings.LastIndex(pl.line[:strings.Index(pl.line, pl.marker)], " ") // the blank in front of the token that holds the marker
+				pl.line = pl.line[:i] + strings.Repeat(" ", pad) + pl.line[i:]
+			}
 			f.Lines = append(f.Lines[:at], append([]string{pl.line}, f.Lines[at:]...)...)
-			sc.Planted = &Planted{File: f.Name, Line: at + 1, Marker: pl.marker}
+			sc.Planted = &Planted{File: f.Name, Line: at + 1, Marker: pl.marker, PadCol: pad}
 		}
 	}
 	if sc.Kind == "zone" && sc.Planted == nil && len(sc.Files) > 0 && balanced(sc.Files[0].Lines) && core.Chance(r, 6) {
@@ -764,6 +772,18 @@ func runZone(sc *Scenario, res *core.Result, logf func(string, ...any)) {
 				res.Fail("P8", "error-position", "bad token planted at %s line %d, error says: %s", sc.Planted.File, sc.Planted.Line, ref.err)
 				return
 			}
+			if sc.Planted.PadCol > 0 {
+				// the column: wherever exactly a token's position is counted from, it lies beyond the blanks in front of it
+				col := 0
+				if i := strings.LastIndex(ref.err, want); i >= 0 {
+					fmt.Sscanf(ref.err[i+len(want):], "%d", &col)
+				}
+				res.Bump("oracle.P8_error_column")
+				if col <= sc.Planted.PadCol {
+					res.Fail("P8", "error-column", "bad token planted behind %d blanks on line %d of %s, the error reports column %d: %s", sc.Planted.PadCol, sc.Planted.Line, sc.Planted.File, col, errTail(ref.err))
+					return
+				}
+			}
 		} else if reached && ref.err == "" {
 			res.Fail("P3", "syntax-error-not-reported", "a record with an impossible address at %s line %d parsed without error", sc.Planted.File, sc.Planted.Line)
 			return
@@ -1171,6 +1191,13 @@ func judgeOne(sc *Scenario, res *core.Result, o *outcome, which string) {
 	if o.fs.MaxNest >= 7 {
 		res.Bump("probe.include_depth_limit_reached")
 	}
+}
+
+func errTail(e string) string {
+	if len(e) > 160 {
+		return "..." + e[len(e)-160:]
+	}
+	return e
 }
 
 func firstFrame(p string) string {
